@@ -205,6 +205,12 @@ def run(ctx):
 
 
 def clause_ns_of_tag(r, mir):
+    et0 = mir.fn("Lexer::emit_tag[StateMachineActions]")
+    cmps = [(st["rv"]["op"], et0.deep(st["rv"]["a"]), et0.deep(st["rv"]["b"])) for b in et0.blocks for st in b["stmts"]
+            if st["k"] == "assign" and st["rv"]["k"] == "bin" and st["rv"]["op"] in ("Lt", "Le", "Gt", "Ge", "Eq", "Ne") and "ns_depth(" in et0.deep(st["rv"]["a"]) + et0.deep(st["rv"]["b"])]
+    r.inst("emit_tag|ns-depth-test", sample={"comparisons": [(op, a[-40:], b[-40:]) for op, a, b in cmps]})
+    if len(cmps) != 1 or cmps[0][0] not in ("Gt", "Lt") or not ("ns_depth(" in cmps[0][1] and "ns_depth(" in cmps[0][2]):
+        r.violate("emit_tag|ns-depth-test", f"Lexer::emit_tag decides between the namespace before and after deferred feedback with {[(op) for op, _, _ in cmps]} on the namespace depth; only a *deeper* stack (a deferred push by an integration point) may keep the earlier namespace — a tag that pops a namespace (<font color> breaking out of SVG/MathML) must report the namespace it ends up in", et0.loc())
     et = mir.fn("Lexer::emit_tag[StateMachineActions]")
     hf = [bi for bi, t in et.calls(r"Lexer::handle_tree_builder_feedback$")]
     ns_reads = [bi for bi, t in et.calls(r"TreeBuilderSimulator::current_ns$")]
